@@ -270,6 +270,9 @@ func (W) Gen(prop string, seed uint64, tier string) *world.Plan {
 		}
 		tasks = append(tasks, world.Task{Role: "after", Ops: tail})
 	}
+	if len(tasks) == 1 && maxLen > 1 && r.Chance(350) {
+		p.Knobs["dups"] = 1
+	}
 	p.Tasks = tasks
 	return p
 }
@@ -301,6 +304,12 @@ func catch(f func()) (pv interface{}) {
 func (x *exec) seq(r *rng.R, n, clause int) [][]interface{} {
 	out := make([][]interface{}, n)
 	for i := range out {
+		if i > 0 && x.p.Knobs["dups"] == 1 && r.Chance(450) {
+			// a run of equal neighbours ("Returns(5, 5, 7)"): every element counts as a position of its
+			// own (sequential plans only: the concurrent oracle attributes positions by unique values)
+			out[i] = out[i-1]
+			continue
+		}
 		x.nextID++
 		out[i] = uniqueResults(r, x.t, x.nextID)
 		x.idPos[x.nextID] = [2]int{clause, i}
